@@ -29,7 +29,7 @@ ASSUMPTIONS = [
     "LeaspyConvergenceError during a generated fit (collapsed variance) ends the case as a rejected input.",
 ]
 REQUIRED_CLASSES = {"all-three-regimes": 100, "refused-power": 12, "nb=0": 10, "nb>=n_iter": 10, "explicit-count": 50, "explicit-count+default-fraction": 30, "second-run-of-same-algorithm-object": 30,
-                    "annealing-longer-than-memoryless-phase": 30}
+                    "annealing-longer-than-memoryless-phase": 30, "counts-given-through-load_parameters": 30}
 
 GRID_FRACS = [0.0, 0.1, 0.29, 0.5, 0.7, 0.9, 1.0]
 GRID_POWERS = [0.51, 0.8, 1.0]
@@ -117,7 +117,7 @@ def run_config(col: Collector, cfg, cohort, algo_kw, sub_check, classes):
     try:
         with observe.wrap_method(A, "_maximization_step", before=before_max, after=after_max):
             settings = AlgorithmSettings("mcmc_saem", seed=algo_kw.get("seed", 0), progress_bar=False,
-                                         **{k: v for k, v in algo_kw.items() if k not in ("seed", "second_run")})
+                                         **{k: v for k, v in algo_kw.items() if k not in ("seed", "second_run", "via_load_parameters")})
             if algo_kw.get("second_run"):
                 # one algorithm object run twice (what BaseModel.fit does, minus the fresh algorithm per call):
                 # the SECOND run is the one recorded and judged
@@ -133,6 +133,19 @@ def run_config(col: Collector, cfg, cohort, algo_kw, sub_check, classes):
                 model.initialize(dataset)
                 algorithm.run(model, dataset)
                 classes.append("second-run-of-same-algorithm-object")
+            elif algo_kw.get("via_load_parameters"):
+                # the counts reach the algorithm through the documented BaseAlgorithm.load_parameters
+                # (docstring example: {'n_iter': 5000, 'n_burn_in_iter': 4000}) after it was created with other counts
+                from leaspy.algo import algorithm_factory
+                from leaspy.models.base import BaseModel
+
+                other = {k: v for k, v in algo_kw.items() if k not in ("seed", "second_run", "via_load_parameters", "n_iter", "n_burn_in_iter", "n_burn_in_iter_frac")}
+                algorithm = algorithm_factory(AlgorithmSettings("mcmc_saem", seed=algo_kw.get("seed", 0), progress_bar=False, n_iter=2 * n_iter + 7, **other))
+                algorithm.load_parameters({"n_iter": n_iter, "n_burn_in_iter": nb})
+                dataset = BaseModel._get_dataset(data)
+                model.initialize(dataset)
+                algorithm.run(model, dataset)
+                classes.append("counts-given-through-load_parameters")
             else:
                 model.fit(data, algorithm_settings=settings)
     except LeaspyAlgoInputError as e:
@@ -252,6 +265,9 @@ def grid_configs():
                                     annealing=dict(do_annealing=True, n_iter_frac=fa, n_plateau=P, initial_temperature=5.0)))
                 out.append(dict(n_iter=n_iter, n_burn_in_iter=n_iter // 3, n_burn_in_iter_frac=None, burn_in_step_power=power,
                                 annealing=dict(do_annealing=True, n_iter_frac=0.9, n_plateau=2, initial_temperature=2.0)))
+            if n_iter >= 3:  # counts given through BaseAlgorithm.load_parameters after construction
+                out.append(dict(n_iter=n_iter, n_burn_in_iter=n_iter // 2, n_burn_in_iter_frac=None, burn_in_step_power=power, via_load_parameters=True))
+                out.append(dict(n_iter=n_iter, n_burn_in_iter_frac=0.29, burn_in_step_power=power, via_load_parameters=True))
             if n_iter >= 4:  # the same algorithm object run twice: the schedule restarts with every run
                 out.append(dict(n_iter=n_iter, n_burn_in_iter_frac=0.5, burn_in_step_power=power, second_run=True))
     return out
@@ -308,6 +324,8 @@ def gen_case(draw, kinds):
         akw["annealing"] = dict(do_annealing=True, n_iter_frac=fa, n_plateau=max(1, P), initial_temperature=draw(st.sampled_from([2.0, 10.0])))
     if draw(st.sampled_from([False, False, True])) and not isinstance(pw, str) and 0.5 < pw <= 1:
         akw["second_run"] = True
+    elif "annealing" not in akw and not isinstance(pw, str) and 0.5 < pw <= 1 and draw(st.sampled_from([False, False, True])):
+        akw["via_load_parameters"] = True
     return dict(cfg=cfg, cohort=cohort, algo=akw)
 
 
